@@ -30,6 +30,8 @@ type stubHubT struct {
 	calls []*stubCall
 	// echo: when set, stubs write back what they read (C16)
 	Echo bool
+	// Bus is the event bus handle the server passes to services (C06 sends events through it)
+	Bus pushers.Channel
 }
 
 var stubHub = &stubHubT{}
@@ -38,6 +40,7 @@ func (h *stubHubT) reset() {
 	h.mu.Lock()
 	h.calls = nil
 	h.Echo = false
+	h.Bus = nil
 	h.mu.Unlock()
 }
 func (h *stubHubT) snapshot() []stubCall {
@@ -57,7 +60,11 @@ type stubService struct {
 	Reply  string `toml:"reply"`
 }
 
-func (s *stubService) SetChannel(pushers.Channel) {}
+func (s *stubService) SetChannel(c pushers.Channel) {
+	stubHub.mu.Lock()
+	stubHub.Bus = c
+	stubHub.mu.Unlock()
+}
 
 func (s *stubService) Handle(ctx context.Context, conn net.Conn) error {
 	c := &stubCall{Name: s.Name, Local: conn.LocalAddr().String(), Remote: conn.RemoteAddr().String()}
